@@ -35,7 +35,7 @@ CHECKS["C02"] = ("model_checking",
  "DESIGN.md §4 C02")
 CHECKS["C07"] = ("fault_enumeration",
  "exhaustive enumeration of cancellation points (poll-counting context) and of cancel-between-calls histories",
- "For ~85 finite and infinite programs x 3 inputs every cancellation point k = 0..N is enumerated, where k is the index of the VM's poll of ctx.Done() driven by a poll-counting context (no timers, fully deterministic; N = the run's own length + 2, or a horizon of 3000, thorough 12000, for infinite programs); the same enumeration runs over every plain-query case of cli/test.yaml on its own inputs (horizon 400, thorough 2500). Each case checks: values before the cancellation are exactly the prefix the uncancelled trace had produced by poll k, the Next that polled returns the context's error without executing another instruction, the iterator is exhausted afterwards and never polls again. Additionally cancellation between two Next calls after every output, the iterator lifecycle (false forever, no panic after an error, cancellation after exhaustion) over the corpus and an error grammar, and the entry points that must report problems as error values. A program that never reaches a poll is caught by a per-case watchdog and reported as a violation.",
+ "For ~85 finite and infinite programs x 3 inputs every cancellation point k = 0..N is enumerated, where k is the index of the VM's poll of ctx.Done() driven by a poll-counting context (no timers, fully deterministic; N = the run's own length + 2, or a horizon of 3000, thorough 12000, for infinite programs); the same enumeration runs over every plain-query case of cli/test.yaml on its own inputs (horizon 400, thorough 2500). Each case checks: values before the cancellation are exactly the prefix the uncancelled trace had produced by poll k, the Next that polled returns the context's error without executing another instruction, the iterator is exhausted afterwards and never polls again. Additionally cancellation between two Next calls after every output, the iterator lifecycle (false forever, no panic after an error, cancellation after exhaustion) over the corpus, an error grammar, ~130 programs raising every kind of error (incl. Go functions failing through error values and iterators) in 16 contexts and every small path expression applied to computed values; standard-library contexts whose cause differs from their error; and the entry points that must report problems as error values. A program that never reaches a poll is caught by a per-case watchdog and reported as a violation.",
  "Trusted: the VM polls ctx.Done() once per instruction (that is what makes a poll index a cancellation point); steps that do not poll at all are only visible through the between-calls histories and the hang watchdog.",
  "DESIGN.md §4 C07")
 CHECKS["C20"] = ("exploration",
@@ -95,7 +95,7 @@ CHECKS["C17"] = ("fault_enumeration",
  "DESIGN.md §4 C17")
 CHECKS["C18"] = ("model_checking",
  "exhaustive enumeration of module trees, definition profiles and file-system layouts, each compiled with the real loader and compared, probe by probe, with a resolution model (textual inclusion with namespacing; first-match directory lookup)",
- "Module trees main -> x -> y -> z (depth 3, diamonds, a module reached by include and by import, one alias used twice, auto-included init modules): every sequence of <= 2 (thorough <= 3) distinct main links from 8 x 10 link lists of x x 4 of y x definition profiles (same name at several arities, redefinition, forward references, unqualified/qualified/builtin-shadowing calls, $d and $d::d) x 4 init modules; 27 probes per tree are each compiled and run and must be defined with the model's value or fail with the model's error. File-system resolution: the 4 candidate files of a module (d1/n.jq, d1/n/base.jq, d2/n.jq, d2/n/base.jq; n = x and p/x; .json for data) x all 16 presence subsets x 4 -L configurations x 6 `search` entries in main (also as -f file elsewhere) x nested modules living in 2 directories with 7 `search` entries. modulemeta for 4 x 5 x 6 modules; the default search list (~/.jq file or directory, $ORIGIN/../lib/gojq, $ORIGIN/../lib) with a copy of the real binary.",
+ "Module trees main -> x -> y -> z (depth 3, diamonds, a module reached by include and by import, one alias used twice, auto-included init modules): every sequence of <= 2 (thorough <= 3) distinct main links from 8 x 10 link lists of x x 4 of y x definition profiles (same name at several arities, redefinition, forward references, unqualified/qualified/builtin-shadowing calls, $d and $d::d) x 4 init modules; 27 probes per tree are each compiled and run and must be defined with the model's value or fail with the model's error. File-system resolution: the 4 candidate files of a module (d1/n.jq, d1/n/base.jq, d2/n.jq, d2/n/base.jq; n = x and p/x; .json for data) x all 16 presence subsets x 4 -L configurations x 6 `search` entries in main (also as -f file elsewhere) x nested modules living in 2 directories with 7 `search` entries and, with the command run elsewhere, 6 bare relative entries. modulemeta for 4 x 5 x 6 modules; the default search list (~/.jq file or directory, $ORIGIN/../lib/gojq, $ORIGIN/../lib) with a copy of the real binary.",
  "The model reads include as textual insertion and import as isolation plus alias prefix; three deviations of the pinned tree from it are recorded as known findings and matched only when the model with that deviation switched on predicts the whole tree.",
  "DESIGN.md §4 C18")
 CHECKS["C19"] = ("exploration",
@@ -105,7 +105,7 @@ CHECKS["C19"] = ("exploration",
  "DESIGN.md §4 C19")
 CHECKS["C06"] = ("model_checking",
  "stateless exploration of ALL schedules up to 2 preemptions of G real goroutines on the real code under a hand-written cooperative scheduler (scheduling points: every package-sync operation via a build-overlay shim, Compile, every Iter.Next return), with the Go race detector run inside every execution (hand-offs hidden from it by runtime.RaceDisable) plus a free-running -race pass",
- "98 programs (delete/update-heavy incl. updates that delete paths, sort/group, streams, regex builtins with equal and different patterns/flags, programs whose literals are nested containers) x sharing modes {one *Code + one input; one *Code, distinct inputs; one *Query compiled by each goroutine; distinct Codes + one input; shared value as variable} for G=2, G=3 on one Code and input, pairs of different programs on one shared input and pairs of goroutines compiling their own queries (quick: a quarter of the pairs; thorough: all). Every schedule with <= 2 preemptions is executed; oracle per execution: no race report, no fatal error, no deadlock, each goroutine's outputs equal its outputs alone, shared input unchanged.",
+ "113 programs (delete/update-heavy incl. updates that delete paths, accumulation from an empty first operand, sort/group, streams, regex builtins with equal and different patterns/flags, programs whose literals are nested containers) x sharing modes {one *Code + one input; one *Code, distinct inputs; one *Query compiled by each goroutine; distinct Codes + one input; shared value as variable} for G=2, G=3 on one Code and input, pairs of different programs on one shared input and pairs of goroutines compiling their own queries (quick: a quarter of the pairs; thorough: all). Every schedule with <= 2 (thorough: 3) preemptions is executed; oracle per execution: no race report, no fatal error, no deadlock, each goroutine's outputs equal its outputs alone, shared input unchanged.",
  "The race detector's happens-before analysis (4 shadow cells per word) stands for the memory model; weak-memory reorderings beyond it are not modelled.",
  "DESIGN.md §4 C06")
 NOT_YET = "check not built yet (work in progress in this session); see DESIGN.md for the planned exploration"
